@@ -11,6 +11,7 @@ mod cnf;
 mod compile;
 mod dnnf;
 mod ff;
+mod lattice;
 mod order;
 mod table;
 
@@ -25,6 +26,7 @@ pub fn run_case(c: &Value) -> CaseResult {
         "dnnf_cond" => dnnf::run(c),
         "cnf_eval" | "pm_ops" => cnf::run(c),
         "order_perm" => order::run(c),
+        "lat_eu" | "lat_real" | "lat_bool" => lattice::run(c),
         "compile_expr" | "compile_cnf" => compile::run(c),
         _ => Err(format!("unknown case kind {kind}")),
     });
@@ -75,6 +77,7 @@ fn main() {
                 "dnnf" => dnnf::candidates(seed),
                 "cnf" => cnf::candidates(seed),
                 "order" => order::candidates(seed),
+                "lattice" => lattice::candidates(seed),
                 "compile" => compile::candidates(seed),
                 _ => vec![],
             };
